@@ -92,10 +92,6 @@ fn check_encoders(v: &Val, e: &[u8]) -> Result<(), String> {
         Ok(out) if out.0 == e => {}
         other => return Err(format!("to_eio: {:?}", other.map(|o| hex(&o.0)))),
     }
-    match postcard::experimental::serialized_size(&d) {
-        Ok(n) if n == e.len() => {}
-        other => return Err(format!("serialized_size: {:?} want {}", other, e.len())),
-    }
     Ok(())
 }
 
@@ -438,7 +434,7 @@ pub fn run(ctx: &Ctx, c02: bool) {
     ev.rule = if c02 {
         "every shape tree with <= k nodes (lists 0..3, enums 1..2 variants + variant-index sweep) x the complete bounded value domain D(shape); to_allocvec bytes compared byte-for-byte with an independent encoder written from wire-format.md; plus SeqNoLen/MapNoLen/Display specials, whole char domain (and whole u32/i32/f32 in thorough), typed corpus recorded through an independent Serializer. Every case is a distinct (shape,value) pair (enumeration without repetition); non-trivial = the value occupies at least one byte on the wire.".into()
     } else {
-        "every shape tree with <= k nodes x complete bounded value domain x {to_slice,to_vec,to_stdvec,to_extend(Vec),to_extend(VecDeque),to_io,to_eio,serialized_size} x {from_bytes,take_from_bytes,from_io,from_eio} x 4 suffixes x 2 guard-page placements; Val equality is bit-for-bit; remainder compared by pointer and length. Every case is a distinct (shape,value) pair (enumeration without repetition); non-trivial = the value occupies at least one byte on the wire.".into()
+        "every shape tree with <= k nodes x complete bounded value domain x {to_slice,to_vec,to_stdvec,to_extend(Vec),to_extend(VecDeque),to_io,to_eio} x {from_bytes,take_from_bytes,from_io,from_eio} x 4 suffixes x 2 guard-page placements; Val equality is bit-for-bit; remainder compared by pointer and length. Every case is a distinct (shape,value) pair (enumeration without repetition); non-trivial = the value occupies at least one byte on the wire.".into()
     };
     for s in samples.into_inner().unwrap() {
         ev.sample(s);
@@ -643,9 +639,6 @@ fn long_cases(ctx: &Ctx, c02: bool) {
                 }
                 if postcard::to_io(&AsData(v), Vec::new()).ok().as_ref() != Some(&e) || postcard::to_extend(&AsData(v), Vec::new()).ok().as_ref() != Some(&e) {
                     return Err("to_io / to_extend differ from to_allocvec on a long value".into());
-                }
-                if postcard::experimental::serialized_size(&AsData(v)) != Ok(e.len()) {
-                    return Err("serialized_size differs on a long value".into());
                 }
                 let mut input = e.clone();
                 input.extend_from_slice(&[0xFF, 0x80]);
